@@ -62,92 +62,117 @@ func run(ctx *core.Ctx) error {
 			return err
 		}
 	}
+	var cmu sync.Mutex
+	var cwg sync.WaitGroup
+	var cerr error
+	csem := make(chan struct{}, 3)
 	for _, cf := range configs(ctx) {
-		three := len(cf.Procs) == 3
-		g, res, err := ctx.DumpGraph(core.TLCOpts{Dir: "conc", Module: "MC_Extractor", Cfg: cf.Cfg, Workers: 8,
-			Timeout: ctx.Dur(5, 20), Constants: cf.Name + ": " + strings.Join(cf.Procs, ",") + " x 2 calls, graph " + cf.Graph})
-		if err != nil {
-			return err
-		}
-		maxPaths := 0
-		if three {
-			maxPaths = 8000 // sampled edge cover for three goroutines
-		}
-		paths, covered := g.EdgeCover(ctx.Rand("paths-"+cf.Name), 200, maxPaths)
-		totalEdges += g.NumEdges()
-		coveredEdges += covered
-		ctx.Logf("%s: %d states, %d transitions, %d schedules cover %d transitions", cf.Name, res.Distinct, g.NumEdges(), len(paths), covered)
-
-		// build schedules
-		scheds := make([]schedule, 0, len(paths))
-		for _, p := range paths {
-			sc := schedule{Graph: cf.Graph, Procs: cf.Procs}
-			for _, e := range p {
-				st, err := parseAction(e.Action)
+		cwg.Add(1)
+		csem <- struct{}{}
+		go func(cf config) {
+			defer cwg.Done()
+			defer func() { <-csem }()
+			if err := func() error {
+				three := len(cf.Procs) == 3
+				g, res, err := ctx.DumpGraph(core.TLCOpts{Dir: "conc", Module: "MC_Extractor", Cfg: cf.Cfg, Workers: 8,
+					Timeout: ctx.Dur(5, 20), Constants: cf.Name + ": " + strings.Join(cf.Procs, ",") + " x 2 calls, graph " + cf.Graph})
 				if err != nil {
-					return core.Infra("%v", err)
+					return err
 				}
-				ms, err := g.State(e.To)
-				if err != nil {
-					return core.Infra("state of %s: %v", cf.Name, err)
+				maxPaths := 0
+				if three {
+					maxPaths = 8000 // sampled edge cover for three goroutines
 				}
-				sc.Steps = append(sc.Steps, st)
-				sc.States = append(sc.States, ms)
-			}
-			last := p[len(p)-1].To
-			sc.Final = true
-			for _, o := range g.Out[last] {
-				if o.To != last {
-					sc.Final = false
-				}
-			}
-			scheds = append(scheds, sc)
-		}
+				paths, covered := g.EdgeCover(ctx.Rand("paths-"+cf.Name), 200, maxPaths)
+				cmu.Lock()
+				totalEdges += g.NumEdges()
+				coveredEdges += covered
+				cmu.Unlock()
+				ctx.Logf("%s: %d states, %d transitions, %d schedules cover %d transitions", cf.Name, res.Distinct, g.NumEdges(), len(paths), covered)
 
-		outs := make([]outcome, len(scheds))
-		var wg sync.WaitGroup
-		sem := make(chan struct{}, 12)
-		for i := range scheds {
-			wg.Add(1)
-			sem <- struct{}{}
-			go func(i int) {
-				defer wg.Done()
-				defer func() { <-sem }()
-				outs[i] = replaySchedule(scheds[i], limit)
-			}(i)
-		}
-		wg.Wait()
-
-		ndiv := 0
-		var firstDiv string
-		for i, o := range outs {
-			ctx.Ev.Eval(1)
-			ctx.Ev.Add("steps_executed_on_real_code", int64(o.StepsRun))
-			if concurrent(scheds[i]) {
-				ctx.Ev.Distinct(cf.Name + ":" + stepsKey(scheds[i]))
-			}
-			for k, v := range o.Violations {
-				ctx.Violation(o.Keys[k], v, scheds[i])
-			}
-			if len(o.Divergences) > 0 && len(o.Violations) == 0 {
-				ndiv++
-				if firstDiv == "" {
-					firstDiv = o.Divergences[0] + " [schedule " + stepsKey(scheds[i]) + "]"
+				// build schedules
+				scheds := make([]schedule, 0, len(paths))
+				for _, p := range paths {
+					sc := schedule{Graph: cf.Graph, Procs: cf.Procs}
+					for _, e := range p {
+						st, err := parseAction(e.Action)
+						if err != nil {
+							return core.Infra("%v", err)
+						}
+						ms, err := g.State(e.To)
+						if err != nil {
+							return core.Infra("state of %s: %v", cf.Name, err)
+						}
+						sc.Steps = append(sc.Steps, st)
+						sc.States = append(sc.States, ms)
+					}
+					last := p[len(p)-1].To
+					sc.Final = true
+					for _, o := range g.Out[last] {
+						if o.To != last {
+							sc.Final = false
+						}
+					}
+					scheds = append(scheds, sc)
 				}
-			}
-		}
-		ctx.Ev.AddReplayed(len(scheds))
-		if len(scheds) > 0 {
-			ctx.Ev.Sample(map[string]any{"kind": "TLC behaviour replayed on the real Extractor", "config": cf.Name, "schedule": scheds[len(scheds)/2].Steps})
-		}
-		if ndiv > 0 && ctx.Violations() == 0 {
-			return core.Infra("%s: the real code left the modelled behaviour in %d schedules without violating the property, e.g. %s — the specification no longer describes the code", cf.Name, ndiv, firstDiv)
-		}
 
-		// P-B: the recorded events are validated by TLC
-		if err := validateTraces(ctx, cf, scheds, outs); err != nil {
-			return err
-		}
+				outs := make([]outcome, len(scheds))
+				var wg sync.WaitGroup
+				sem := make(chan struct{}, 12)
+				for i := range scheds {
+					wg.Add(1)
+					sem <- struct{}{}
+					go func(i int) {
+						defer wg.Done()
+						defer func() { <-sem }()
+						outs[i] = replaySchedule(scheds[i], limit)
+					}(i)
+				}
+				wg.Wait()
+
+				ndiv := 0
+				var firstDiv string
+				for i, o := range outs {
+					ctx.Ev.Eval(1)
+					ctx.Ev.Add("steps_executed_on_real_code", int64(o.StepsRun))
+					if concurrent(scheds[i]) {
+						ctx.Ev.Distinct(cf.Name + ":" + stepsKey(scheds[i]))
+					}
+					for k, v := range o.Violations {
+						ctx.Violation(o.Keys[k], v, scheds[i])
+					}
+					if len(o.Divergences) > 0 && len(o.Violations) == 0 {
+						ndiv++
+						if firstDiv == "" {
+							firstDiv = o.Divergences[0] + " [schedule " + stepsKey(scheds[i]) + "]"
+						}
+					}
+				}
+				ctx.Ev.AddReplayed(len(scheds))
+				if len(scheds) > 0 {
+					ctx.Ev.Sample(map[string]any{"kind": "TLC behaviour replayed on the real Extractor", "config": cf.Name, "schedule": scheds[len(scheds)/2].Steps})
+				}
+				if ndiv > 0 && ctx.Violations() == 0 {
+					return core.Infra("%s: the real code left the modelled behaviour in %d schedules without violating the property, e.g. %s — the specification no longer describes the code", cf.Name, ndiv, firstDiv)
+				}
+
+				// P-B: the recorded events are validated by TLC
+				if err := validateTraces(ctx, cf, scheds, outs); err != nil {
+					return err
+				}
+				return nil
+			}(); err != nil {
+				cmu.Lock()
+				if cerr == nil {
+					cerr = err
+				}
+				cmu.Unlock()
+			}
+		}(cf)
+	}
+	cwg.Wait()
+	if cerr != nil {
+		return cerr
 	}
 	ctx.Ev.Set("model_transitions", totalEdges)
 	ctx.Ev.Set("model_transitions_executed_on_real_code", coveredEdges)
@@ -211,4 +236,3 @@ func replay(ctx *core.Ctx, raw json.RawMessage) error {
 	}
 	return nil
 }
-
